@@ -399,6 +399,7 @@ def run(tier):
     chk.floor('obligations', len(chk.obls), 18)
     from .. import lints
     lints.length_is_boolean(chk, ['src/aead/'])
+    lints.round_down_mask_keeps_high_word(chk, ['src/aead/', 'src/hash/ghash'])   # AAD / data length counters
     lints.word_codec_maps(chk, ['src/hash/ghash', 'src/symcipher/aes_ct_ctrcbc', 'src/symcipher/aes_ct64_ctrcbc'], floor=4)
     from .. import lints as _lints_ir
     _lints_ir.ignored_result_regression(chk, ['src/aead/'])
